@@ -2,6 +2,7 @@
 package c08trunc
 
 import (
+	"bytes"
 	"encoding/hex"
 	"encoding/json"
 	"fmt"
@@ -51,6 +52,9 @@ type Case struct {
 	// Source: the concrete type of the reader the decoder is given (hio.SourceKinds;
 	// empty: the fragmenting reader)
 	Source string `json:"source,omitempty"`
+	// Used (reflect decoder): hex of the complete encoding, decoded into the
+	// destination before each truncated prefix is
+	Used string `json:"used,omitempty"`
 }
 
 // bigData builds the encoding of a big case: a message with a BigLen byte
@@ -141,6 +145,9 @@ func genCase(t *rapid.T) Case {
 	c.Sig = ty.Sig()
 	c.CutsFirst = rapid.Bool().Draw(t, "cutsfirst")
 	c.Hex = hex.EncodeToString(ref.Encode(ty, v))
+	if dec == "reflect" && rapid.Bool().Draw(t, "useddest") {
+		c.Used = c.Hex
+	}
 	c.Desc = ref.Render(v)
 	if len(c.Desc) > 300 {
 		c.Desc = c.Desc[:300] + "..."
@@ -210,6 +217,14 @@ func decode(c Case, ty *ref.Type, r io.Reader) (err error, panicked interface{})
 		}
 	case "reflect":
 		ptr := reflect.New(bridge.GoType(ty, nil))
+		if c.Used != "" {
+			// the destination already holds a value of the type (the complete
+			// encoding decoded into it): a truncated one is refused all the same
+			full, _ := hex.DecodeString(c.Used)
+			if e := encoding.NewDecoder(encoding.DefaultCap(), bytes.NewReader(full)).Decode(ptr.Interface()); e != nil {
+				ptr = reflect.New(bridge.GoType(ty, nil))
+			}
+		}
 		err = encoding.NewDecoder(encoding.DefaultCap(), r).Decode(ptr.Interface())
 	case "metaobject":
 		_, err = object.ReadMetaObject(r)
